@@ -46,7 +46,33 @@ func VH_C01_ArrayStep() {
 	newSz := vhRange32("newsz", 1, 65536)
 	newElem := vElem{tag: newTag, size: newSz}
 
-	op := vhChoose("op", 5)
+	op := vhChoose("op", 9)
+	if op >= 5 {
+		// out-of-range requests (any 64-bit index) fail like on a plain sequence and change nothing
+		i := vhU64("badidx")
+		var err error
+		switch op {
+		case 5:
+			vhAssume(i >= uint64(n))
+			_, err = a.Get(i)
+		case 6:
+			vhAssume(i >= uint64(n))
+			_, err = a.Set(i, newElem)
+		case 7:
+			vhAssume(i > uint64(n))
+			err = a.Insert(i, newElem)
+		case 8:
+			vhAssume(i >= uint64(n))
+			_, err = a.Remove(i)
+		}
+		vhAssert(err != nil, "out-of-range request fails")
+		var oob *IndexOutOfBoundsError
+		vhAssert(errorsAs(err, &oob), "out-of-range request reports index out of bounds")
+		vhCheckArray(a, addr, model, "after out-of-range request")
+		vhAssert(vhStorageSlabCount(storage) == vhArraySlabCount(storage, rootID), "out-of-range request leaks nothing")
+		vhReach("step-done")
+		return
+	}
 	switch op {
 	case 0: // Get
 		i := vhChoose("idx", n+1)
